@@ -1010,7 +1010,10 @@ class Interp:
         if con is not None and not getattr(con, 'inline', False):
             return self.apply_contract(con, bound, fr, fi.qual)
         if con is None and not self.reg.may_inline(fi.qual):
-            raise Unsupported('call to %s: no contract and not declared inline' % fi.qual)
+            # contract-less helpers without loops are inlined (reported in the evidence as inlined)
+            if any(isinstance(n, (ast.For, ast.While, ast.AsyncFor)) for n in ast.walk(fi.node)):
+                raise Unsupported('call to %s: no contract and not declared inline' % fi.qual)
+            self.ctx.trust('inlined (no contract, loop-free): ' + fi.qual)
         return self.inline(fi, bound, con, recv_cls)
 
     def inline(self, fi, bound, con, recv_cls=None):
